@@ -227,6 +227,9 @@ pub fn install_fs_hook(artifact_dir: std::path::PathBuf, fault: Option<(usize, F
         {
             let mut r = rec2.borrow_mut();
             if r.artifacts.is_none() {
+                if std::env::var("SIM_DEBUG_SYSLOG").is_ok() {
+                    eprintln!("artifact order: {:?}", artifacts.iter().map(artifact_rel_path).collect::<Vec<_>>());
+                }
                 r.artifacts = Some(artifact_map(artifacts));
             }
             let name = op_name(op, &artifact_dir);
